@@ -42,7 +42,7 @@ struct V1 : public VoidApply1Functor<V1, Val> { unsigned seen, twice; V1() : see
 struct V2 : public VoidApply2Functor<V2, Val, Val> { unsigned seen, twice; V2() : seen(0), twice(0) {}
   void ApplyOperation(const Val& a, const Val& b) { unsigned m = 1u << (a * NVAL + b); twice |= seen & m; seen |= m; } };
 
-static inline unsigned drawOp() { return OPSEL >= 0 ? (unsigned)(OPSEL) : vs_range(4); }
+static inline unsigned drawOp() { return OPSEL >= 0 ? (unsigned)(OPSEL) : pick(4); }
 static void same(const MTBDD& m, const Tab& t, int id) { sameFunction(m, t, id); }
 
 extern "C" void harness(void)
@@ -100,6 +100,7 @@ extern "C" void harness(void)
   // pointwise: for every assignment the leaf operation applied to the operands' values
   same(r, want, 10);
   CHECK(r.GetDefaultValue() == wantDflt, 11);
+  checkPaths(r, want);               // the paths of the result partition the assignment space and carry its values
   // canonical: the same function assembled on its own has the same root; equal roots only for equal functions
   { MTBDD again = build(want, 0, ORDER ^ 1); CHECK(again == r, 12); }
   CHECK((r == mf) == want.same(f.t), 13); CHECK((r == mg) == want.same(g.t), 14);
